@@ -155,6 +155,11 @@ def run(ctx):
     jcov = jscan_stage(ctx, ths)
     jcov.update(chararr_stage(ctx, ths))
     bad = []
+    # fixed-length arrays of structs / scalars / enums inside structs: under-filled, over-filled, members in any order (tools/sarr.py)
+    import sarr, glob
+    sa_stats, sa_bad = sarr.stage(ctx, os.path.join(ctx.work, "cc", "flatcc"), sorted(glob.glob(os.path.join(ctx.work, "rtj", "*.o"))), ["-DNDEBUG"])
+    bad += sa_bad
+    jcov["struct_array_texts"] = sa_stats
     nmut = nok = nerr = 0
     errs = {}
     for res in results:
